@@ -218,6 +218,19 @@ Definition gate_case (has_cause gone must_block blocked ongoing : bool) (ct : op
 Definition gate_case_low (now : Z) (ct : option Z) (press : option Z) : Z :=
   c_low_at (cycle (mkG true false ct true true now press)).
 
+(* The same run when daemons/timers of the object are being stopped: process_spawning_cause returns re-check
+   delays (`spawning_delays`).  They are NOT an input of the wait: it ends only by stream_pressure or at
+   consistency_time.  They only (a) are returned to apply() and (b) block the release of the finaliser. *)
+Definition gate_case_sp (spawning_delays : list Z) (has_cause gone must_block blocked ongoing : bool) (ct : option Z)
+                        (pie low_adds : bool) (now : Z) (press : option Z) : bool * Z * bool * bool * nat :=
+  let pg := pre_gate has_cause must_block blocked ongoing in
+  let pne := pie && negb low_adds && negb (snd pg) in
+  let g := mkG (fst pg) gone ct pie pne now press in
+  let o := gate g in
+  let no_delays := match spawning_delays with [] => true | _ => false end in
+  (o_slept o, o_until o, o_go o && fst pg, o_go o && fst pg,
+   ((if snd pg then 1 else 0) + (if releases g false ongoing blocked no_delays then 1 else 0))%nat).
+
 Definition gate_obs_eqb (a b : bool * Z * bool * bool * nat) : bool :=
   match a, b with
   | (s1, u1, c1, m1, n1), (s2, u2, c2, m2, n2) =>
